@@ -209,12 +209,20 @@ class SingleDeletionSweep(Contract):
     props = ("C19",)
     bounded_scope = "one reference file (nested groups, points, curve with property group, 2-D grid, block model, surface and octree with cell data, float/text/referenced/boolean data with colour/value maps): every single deletion of an optional attribute, of the Root link, of a property-group block, of a colour/value map, of an attribute of a colour/value map and of an empty child container; plus single deletions of mandatory items (type link, identifier, primitive type): an error or exactly the described entities left out; unaffected entities compared with the intact file"
 
-    def _build(self, path):
+    def _build(self, path, version=None):
         from geoh5py.groups import ContainerGroup
         from geoh5py.objects import Curve, Points
         from geoh5py.workspace import Workspace
 
-        with Workspace.create(path) as ws:
+        with (Workspace.create(path) if version is None else Workspace.create(path, version=version)) as ws:
+            if version is not None:
+                # a drillhole group in the storage format of that version
+                from geoh5py.groups import DrillholeGroup
+                from geoh5py.objects import Drillhole
+
+                dg = DrillholeGroup.create(ws, name="holes")
+                dh = Drillhole.create(ws, name="hole", parent=dg, collar=[0.0, 0.0, 0.0], surveys=np.c_[np.r_[0.0, 10.0], np.zeros(2), np.ones(2) * -90.0])
+                dh.add_data({"log": {"depth": np.array([1.0, 2.0]), "values": np.array([5.0, 6.0])}})
             # identifiers chosen so that, in identifier order, the nested group comes first, the (random) root
             # in between and the outer group last: the order in which a rebuild meets them is then fixed
             g1 = ContainerGroup.create(ws, name="site", uid=__import__("uuid").UUID("ffffffff-ffff-ffff-ffff-fffffffffff0"))
@@ -275,6 +283,9 @@ class SingleDeletionSweep(Contract):
             path = os.path.join(d, "ref.geoh5")
             self._build(path)
             with h5py.File(path, "r") as f:
+                for k in f[list(f)[0]].attrs:
+                    for version in (None, 1.0, 2.0):
+                        always.append({"kind": "project-attr", "attr": k, "version": version})
                 for name in self.NAMES:
                     node, _ = self._find(f, name)
                     for k in node.attrs:
@@ -310,12 +321,14 @@ class SingleDeletionSweep(Contract):
         d = tempfile.mkdtemp()
         try:
             path = os.path.join(d, "ref.geoh5")
-            self._build(path)
+            self._build(path, version=case.get("version"))
             ref = self._snapshot(path)
             owner_uid = None
             with h5py.File(path, "r+") as f:
                 if case["kind"] == "root-link":
                     del f[list(f)[0]]["Root"]
+                elif case["kind"] == "project-attr":
+                    del f[list(f)[0]].attrs[case["attr"]]
                 else:
                     node, key = self._find(f, case["entity"])
                     owner_uid = key.strip("{}")
@@ -374,7 +387,20 @@ class SingleDeletionSweep(Contract):
             shares_type = set()
             if case["kind"].startswith("type"):
                 shares_type = {u for u, dsc in ref.items() if dsc["class"] == ref[owner_uid]["class"]} if owner_uid in ref else set()
+            versioned = set()
+            if case["kind"] == "project-attr" and case["attr"] == "Version":
+                # the version says how drillhole groups store their holes: those subtrees are what it describes
+                versioned = {u for u, dsc in ref.items() if "Drillhole" in dsc["class"]}
+                grow = True
+                while grow:
+                    grow = False
+                    for u, dsc in ref.items():
+                        if u not in versioned and dsc["parent"] in versioned:
+                            versioned.add(u)
+                            grow = True
             for uid, desc in ref.items():
+                if uid in versioned:
+                    continue
                 if case["kind"] == "root-link" and uid == root_uid:
                     continue  # the former root record is what the missing link described
                 if uid == owner_uid or uid in shares_type:
